@@ -30,9 +30,10 @@ def generate(tier, seed, casedir, variant):
             base["param_gen"] = True
         if base["validation"]["own_obs_gen"]:
             base["obs_gen"] = True
+            base["validation"]["nan_obs"] = (j % 3 == 0)
         cfgs.append(base)
     r = run_all(cfgs, casedir, variant, "C19")
-    r["rule"] = ("scripted validation modules: outcome scripts (stop request, improvement flag) of length %d (all %d of them in the thorough tier), periods 1..3; built-in ValidationLoss with its own data / parameter / observation generators, "
+    r["rule"] = ("scripted validation modules: outcome scripts (stop request, improvement flag) of length %d (all %d of them in the thorough tier), periods 1..3; built-in ValidationLoss with its own data / parameter / observation generators (some validation observations not numbers, so that some criteria are NaN), "
                  "patience 0..2, early stopping on and off; non-trivial = at least two iterations executed" % (L, 4 ** L))
     r["exhaustive"] = tier == "thorough"
     return r
